@@ -23,10 +23,13 @@
 package main
 
 import (
+	"encoding/base64"
+	"encoding/json"
 	"fmt"
 	"os"
 	"runtime/debug"
 	"runtime/pprof"
+	"strings"
 	"time"
 
 	"filippo.io/age/zverif/mon"
@@ -69,6 +72,7 @@ func main() {
 		defer pprof.StopCPUProfile()
 	}
 	o := newOracle(r)
+	replayTrace(r)
 	t0 := time.Now()
 	lap := func(what string) {
 		// diagnostics only; no verdict depends on the clock
@@ -78,15 +82,15 @@ func main() {
 	// (i)
 	a := alphabet()
 	rounds := maxVariants(a)
-	maxLen := r.Pick(5, 6)
 	if r.Thorough() {
-		// the full variant cycle at the quick bound, the first rounds at the deeper bound
+		// the full variant cycle up to 5 tokens, the first four instantiations at 6
 		runTokens(o, 5, rounds, 0)
-		runTokens(o, 6, 6, 6)
+		runTokens(o, 6, 4, 6)
 	} else {
-		runTokens(o, maxLen, 8, 0)
+		// the full variant cycle up to 4 tokens, the first four instantiations at 5
+		runTokens(o, 4, rounds, 0)
+		runTokens(o, 5, 4, 5)
 	}
-
 	lap("(i) token sequences")
 
 	// (ii)
@@ -100,19 +104,19 @@ func main() {
 	lap("(ii) mutations")
 
 	// (iii)
-	runGenerated(o, r.Pick(30_000, 400_000))
+	runGenerated(o, r.Pick(15_000, 300_000))
 
 	lap("(iii) generated headers")
 
 	// sanity: each part must have produced both verdicts
 	for _, p := range []string{"tokens", "mutation", "generated"} {
 		if r.Counter("accepted_"+p) == 0 {
-			r.Inconclusive("part %q accepted no input", p)
+			r.Inconclusive("part %+q accepted no input", p)
 		}
 	}
 	for _, p := range []string{"tokens", "mutation"} {
 		if r.Counter("rejected_"+p) == 0 {
-			r.Inconclusive("part %q rejected no input", p)
+			r.Inconclusive("part %+q rejected no input", p)
 		}
 	}
 	if r.Counter("accepted_by_reference") == 0 {
@@ -125,4 +129,48 @@ func main() {
 	o.c.flush(r)
 	pprof.StopCPUProfile()
 	r.Finish()
+}
+
+// replayTrace prints, for `check C07 replay <file>`, what the oracle says about
+// the recorded input alone (every reader variant) before the recorded tier and
+// seed are re-run in full, which is what decides "reproduced".
+func replayTrace(r *mon.Run) {
+	file := ""
+	for i, a := range os.Args {
+		if (a == "-replay" || a == "--replay") && i+1 < len(os.Args) {
+			file = os.Args[i+1]
+		} else if strings.HasPrefix(a, "-replay=") || strings.HasPrefix(a, "--replay=") {
+			file = a[strings.Index(a, "=")+1:]
+		}
+	}
+	if file == "" {
+		return
+	}
+	b, err := os.ReadFile(file)
+	if err != nil {
+		return
+	}
+	var rp struct {
+		Key  string `json:"key"`
+		Case struct {
+			Input string `json:"input_base64"`
+		} `json:"case"`
+	}
+	if json.Unmarshal(b, &rp) != nil || rp.Case.Input == "" {
+		return
+	}
+	x, err := base64.StdEncoding.DecodeString(rp.Case.Input)
+	if err != nil {
+		return
+	}
+	o := newOracle(r)
+	st := newStats("replay")
+	acc, m := o.check(st, x, lvAll, 0)
+	fmt.Printf("replay input %s\n  plain reader: accepted=%v, re-serialised header %d bytes\n", quoteTrunc(x, 300), acc, len(m))
+	hit := false
+	for k, w := range o.c.best {
+		fmt.Printf("  oracle on this input alone: %s: %s\n", k, w.what)
+		hit = hit || k == rp.Key
+	}
+	fmt.Printf("  recorded key %+q on this input alone: %v; now re-running the recorded tier and seed\n", rp.Key, hit)
 }
